@@ -3,7 +3,7 @@
    Model/C02TyMut.v (the same with in-place adaptation of lists and dicts), Spec/C02Guard.v (`impl` = the pinned tree,
    `in_guard` = no recorded defect changes what the pinned tree does with this input). The loader `yl` is arbitrary. *)
 From JV Require Import Lib.Base Model.TyVal Model.Scalar Model.Ty Model.C02TyMut Spec.Conforms Spec.ConformsRx Spec.C02Defs
-  Spec.C02Guard Spec.C02Group Proofs.C02Proofs Proofs.C02CompleteProofs Proofs.C02GuardProofs.
+  Spec.C02Guard Spec.C02Group Model.C02Ext Proofs.C02Proofs Proofs.C02CompleteProofs Proofs.C02GuardProofs Proofs.C02ExtProofs.
 From Coq Require Import Permutation.
 
 (* ---- 1. accepted => conforms ----------------------------------------------------------------------------------- *)
@@ -161,13 +161,58 @@ Theorem C02_union_iff_some_member_parse :
 Proof. exact union_members_pinned. Qed.
 Print Assumptions C02_union_iff_some_member_parse.
 
-(* ---- 3. the hypotheses are satisfiable by non-trivial inputs ----------------------------------------------------- *)
+(* a toy loader for the examples and witnesses below *)
 Definition yl0 (s : str) : lres :=          (* a toy loader: "1" -> 1, "a" -> 'a', "0x_" -> ValueError, else syntax error *)
   if str_eqb s [49]%N then LVal (VInt 1)
   else if str_eqb s [97]%N then LVal (VStr [97]%N)
   else if str_eqb s [48;120;95]%N then LValErr
   else LYamlErr.
 Definition s_null : str := [110;117;108;108]%N.
+
+(* ---- 2c. registered / restricted Union members and declared defaults (Model/C02Ext.v) ------------------------------ *)
+(* the trial loop itself, for ARBITRARY member results `rs` (whatever a registered type's constructor did with the value:
+   returned something, raised ValueError, OverflowError, decimal.InvalidOperation, ...): accepted exactly when some member
+   result is a success (or the original text is taken for a str member), in every order, for every setting of the switches *)
+Theorem C02_union_loop_iff_some_result :
+  forall fx orig v rs,
+  is_ok (adapt_union fx orig v rs)
+  = existsb (fun r => is_ok (snd r)) rs || (is_some orig && negb (is_str v) && existsb (fun r => is_str_ty (fst r)) rs).
+Proof. exact adapt_union_ok. Qed.
+Print Assumptions C02_union_loop_iff_some_result.
+
+Theorem C02_union_loop_order_independent :
+  forall fx orig v rs rs', Permutation rs rs' -> is_ok (adapt_union fx orig v rs) = is_ok (adapt_union fx orig v rs').
+Proof. exact union_loop_perm. Qed.
+Print Assumptions C02_union_loop_order_independent.
+
+Theorem C02_union_with_registered_members_order_independent :
+  forall fx yl tbl orig v ms ms', Permutation ms ms' ->
+  is_ok (adapt_union fx orig v (map (member_result fx yl tbl orig v) ms))
+  = is_ok (adapt_union fx orig v (map (member_result fx yl tbl orig v) ms')).
+Proof. exact members_perm. Qed.
+Print Assumptions C02_union_with_registered_members_order_independent.
+
+(* a declared default of the declared shape does not open a way around the hint: `val == default` is only ever applied
+   to the original STRING (the retry of _check_type), so the first pass still yields the declared shape *)
+Theorem C02_default_keeps_shape_repaired :
+  forall yl tbl d t v0 w, (forall dv, d = Some dv -> shaped t dv = true) ->
+  check_type_x all_fixed yl tbl d [MTy t] v0 = AOk w -> shaped t w = true.
+Proof. exact check_type_default_sound. Qed.
+Print Assumptions C02_default_keeps_shape_repaired.
+
+Example C02_default_example :      (* int with default 1 given True / 1.0 (typed objects): rejected; the text 'a' equal to a str default: taken *)
+  parse_key_x pinned yl0 [] (Some (VInt 1)) [MTy TInt] (VBool true) = AErr ErrType
+  /\ parse_key_x pinned yl0 [] (Some (VInt 1)) [MTy TInt] (VFloat (FFin 1 0)) = AErr ErrType
+  /\ parse_key_x pinned yl0 [] (Some (VStr [97]%N)) [MTy (TUnion [TInt; TStr])] (VStr [97]%N) = AOk (VStr [97]%N).
+Proof. vm_compute. repeat split. Qed.
+
+Example C02_registered_member_example :  (* Union[PositiveFloat, int] on 10**400: the first member raises, int accepts — in both orders *)
+  let tbl := [([80]%N, VInt (10 ^ 400), AErr ErrValue)] in
+  parse_key_x pinned yl0 tbl None [MOpq [80]%N; MTy TInt] (VInt (10 ^ 400)) = AOk (VInt (10 ^ 400))
+  /\ parse_key_x pinned yl0 tbl None [MTy TInt; MOpq [80]%N] (VInt (10 ^ 400)) = AOk (VInt (10 ^ 400)).
+Proof. vm_compute. split; reflexivity. Qed.
+
+(* ---- 3. the hypotheses are satisfiable by non-trivial inputs ----------------------------------------------------- *)
 
 Example C02_guard_example :
   let t := TDict false (TUnion [TList (TTuple [TInt; TStr]); TNone]) in
